@@ -39,7 +39,7 @@ def arm_pattern(okey):
                 continue
             k = k[:i + 1]
             break
-    return re.sub(r"::c\d+", "::c#", k)
+    return re.sub(r"(::|/)c\d+(?![A-Za-z0-9_])", r"\1c#", k)
 
 
 def load_armed():
@@ -58,7 +58,7 @@ def is_armed(armed, key):
         return True
     # a key with a dynamic payload is armed through its static prefix
     import re
-    gk = re.sub(r"::c\d+", "::c#", ok)
+    gk = re.sub(r"(::|/)c\d+(?![A-Za-z0-9_])", r"\1c#", ok)
     return any(gk.startswith(a) for a in armed if a and a[-1] in ":@|")
 
 
@@ -218,6 +218,9 @@ class Ctx:
             "violations_new": new,
             "known_findings": kf,
             "undecided_instances": und,
+            "unarmed": len([r for r in und if r.get("unarmed")]),
+            "undecided_because_signature_changed": len([r for r in und if r.get("sig_changed")]),
+            "armed_patterns": len(armed),
             "functions_analysed": sorted(self.functions),
             "bodies_in_scope": len([b for b in self.prog.bodies if b.kind != "Promoted"]),
             "floors": self.floors,
